@@ -302,7 +302,7 @@ def generate(repo):
     """-> (coq text, items, errors)"""
     items, errors = [], []
     out = [HEADER, 'From Coq Require Import ZArith List String.', 'From OV Require Import Model.Weighted.',
-           'Import ListNotations.', 'Open Scope string_scope.', '']
+           'Import ListNotations.', 'Local Open Scope string_scope.', '']
 
     def emit(name, ty, f):
         try:
